@@ -420,10 +420,14 @@ PROPS = {
                    'compared with an independent evaluator; Swap(l, r) for l, r <= 3, Copy(n) / Discard(n) for n <= 5; '
                    'naturality of swap, copy and discard for ten boxes on all inputs over 4 values; arity errors refused.',
         level_note='Contract precondition: wire values are not tuples and a box returns a bare value for one output, a tuple of '
-                   'length cod otherwise (tuple-valued wires, F13, are outside it). Assumed, read off Diagram.__call__ and '
-                   'exercised by the bounded driver: the PythonFunctor sends a type to PRO(len) and a box to Function(len(dom), '
-                   'len(cod), box.function); Function(dom, cod, f) stores its three fields; the call-site contracts of then / '
-                   'tensor / id are checked against the proved closures on every run.',
+                   'length cod otherwise (tuple-valued wires, F13, are outside it). No longer assumed but verified on every run: the two '
+                   'lambdas of Diagram.__call__ (found in the real AST and executed: a type goes to PRO(len), a box to '
+                   'Function(len(dom), len(cod), box.function)), the constructors PythonFunctor / rigid / monoidal / cat '
+                   'Functor.__init__ and Quiver.__init__, Functor.ob / .ar and Quiver.__getitem__ (the mapping given is the '
+                   'one called), and Function.__init__ (stores the function, dom and cod as PRO types); the call-site '
+                   'contracts of then / tensor / id are checked against the proved closures on every run. Assumed: the model '
+                   'of PRO (PRO(n) is the type of n wires named 1, a function of n alone, PRO(a) @ PRO(b) == PRO(a + b); '
+                   'monoidal.PRO.__init__ multiplies a list by a symbolic integer, which the engine does not execute).',
         technique='VCs from the real AST (closures, star-arguments of symbolic length) against a reference semantics as an '
                   'uninterpreted recursive function, z3 / cvc5 over sequences; bounded run-time contracts against an '
                   'independent wire-list evaluator for the structural diagrams and axioms'),
